@@ -8,14 +8,14 @@ lookups on an identically prepared twin context.
 from __future__ import annotations
 
 import itertools
-from typing import Any
+from typing import Any, Optional
 
 import anyio
 
 from ..explore import E1Check, new_summary, run_main_asyncio
 
 ANNS = ("T", "Optional[T]", "T | None", "'T'", "'Optional[T]'", "'T | None'", "future",
-        "None | T", "Union[None, T]", "'Union[None, T]'")
+        "None | T", "Union[None, T]", "'Union[None, T]'", "Optional['T']", "Union['T', None]")
 STATES = ("static", "sync-factory", "async-factory", "inherited", "generated-in-parent", "missing", "broken-factory")
 TEMPLATES = {
     # name: (signature with {r1} {r2} placeholders, ordinary parameter names, injected parameter names)
@@ -124,7 +124,7 @@ def all_cases(tier: str) -> list:
                                         for style in ("pos", "kw"):
                                             if tier == "quick":
                                                 h = hash((template, ann1, ann2, name1, is_async, local, s1, s2, caller, style)) % 7
-                                                if h not in (0,) and not (ann1 in ("Optional[T]", "T", "None | T", "Union[None, T]") and caller == "ctx" and style == "pos" and not local):
+                                                if h not in (0,) and not (ann1 in ("Optional[T]", "T", "None | T", "Union[None, T]", "Optional['T']", "Union['T', None]") and caller == "ctx" and style == "pos" and not local):
                                                     continue
                                             out.append({"template": template, "ann1": ann1, "ann2": ann2, "name1": name1, "name2": "default",
                                                         "async": is_async, "local": local, "s1": s1, "s2": s2, "caller": caller, "style": style})
@@ -137,6 +137,12 @@ def all_cases(tier: str) -> list:
                 out.append({"late": True, "async": is_async, "optional": opt, "state": state})
                 out.append({"late_local": True, "async": is_async, "optional": opt, "state": state})
                 out.append({"wrapped": True, "async": is_async, "optional": opt, "state": state})
+    # injected functions called from a component's start(): the current context is a ComponentContext, whose non-optional
+    # asynchronous lookup waits for a sibling's publication
+    for is_async in (False, True):
+        for opt in (False, True):
+            for published in ("before", "after", "never"):
+                out.append({"comp": True, "async": is_async, "optional": opt, "published": published})
     return out
 
 
@@ -309,10 +315,12 @@ class C19:
                 fails = await self.scope_case(env, case)
             elif "late" in case:
                 fails = await self.late_case(env, case)
+            elif "comp" in case:
+                fails = await self.comp_case(env, case)
             elif "reject" in case:
                 ns: dict = {"_TA": TA, "_TB": TB, "REC": []}
                 try:
-                    exec(compile(reject_source(case["reject"], case["async"]), "<c19>", "exec"), ns)
+                    exec(compile(reject_source(case["reject"], case["async"]), "<c19>", "exec", dont_inherit=True), ns)
                     fails.append(("not-rejected", f"decorating a function with a {case['reject']} resource marker did not raise"))
                 except Exception:  # noqa: BLE001 - "rejected when the decorator is applied": the class is not stated
                     pass
@@ -354,7 +362,7 @@ class C19:
         try:
             with warnings.catch_warnings():
                 warnings.simplefilter("ignore")
-                exec(compile(src, "<c19-scope>", "exec"), ns)
+                exec(compile(src, "<c19-scope>", "exec", dont_inherit=True), ns)
         except BaseException as e:  # noqa: BLE001
             return [("decoration", f"decorating raised {e!r}\n{src}")]
         f, Svc = ns["f"], ns.get("TheSvc") or ns["Svc"]
@@ -399,7 +407,7 @@ class C19:
         try:
             with warnings.catch_warnings():
                 warnings.simplefilter("ignore")
-                exec(compile(src, "<c19-late>", "exec"), ns)
+                exec(compile(src, "<c19-late>", "exec", dont_inherit=True), ns)
         except BaseException as e:  # noqa: BLE001
             return [("decoration", f"decorating a function with a not-yet-defined forward reference raised {e!r}")]
         f = ns["f"]
@@ -439,6 +447,87 @@ class C19:
                 fails.append(("late-ref", f"after the class was defined: explicit lookup returns {exp[1]!r}, the injected call gave {second!r} with argument {ns['REC'][-1:]!r}"))
         return fails
 
+    async def comp_case(self, env: Any, case: dict) -> list:
+        """An injected function called inside Component.start() next to a sibling that publishes the resource before / after the call
+        (or never): same outcome as the explicit lookup made at the same place."""
+        from asphalt.core import Component, Context, get_resource, get_resource_nowait, inject, resource, start_component
+
+        fails: list = []
+        opt = case["optional"]
+
+        if case["async"]:
+            if opt:
+                @inject
+                async def f(tag: str, *, r: Optional[TA] = resource()) -> Any:
+                    return (tag, r)
+            else:
+                @inject
+                async def f(tag: str, *, r: TA = resource()) -> Any:  # type: ignore[misc]
+                    return (tag, r)
+        else:
+            if opt:
+                @inject
+                def f(tag: str, *, r: Optional[TA] = resource()) -> Any:  # type: ignore[misc]
+                    return (tag, r)
+            else:
+                @inject
+                def f(tag: str, *, r: TA = resource()) -> Any:  # type: ignore[misc]
+                    return (tag, r)
+
+        async def run(mode: str) -> tuple:
+            asked = anyio.Event()
+            box: dict = {}
+
+            class Consumer(Component):
+                async def start(self) -> None:
+                    asked.set()
+                    try:
+                        if mode == "explicit":
+                            kw = {"optional": True} if opt else {}
+                            v = (await get_resource(TA, **kw)) if case["async"] else get_resource_nowait(TA, **kw)
+                            box["r"] = ("ok", getattr(v, "label", None))
+                        else:
+                            v = f("t")
+                            if case["async"]:
+                                v = await v
+                            box["r"] = ("ok", getattr(v[1], "label", None)) if v[0] == "t" else ("bad-passthrough", v)
+                    except Exception as e:  # noqa: BLE001
+                        box["r"] = ("exc", type(e).__name__)
+
+            class Provider(Component):
+                async def start(self) -> None:
+                    from asphalt.core import add_resource
+
+                    if case["published"] == "before":
+                        add_resource(TA("published"))
+                    elif case["published"] == "after":
+                        await asked.wait()
+                        await anyio.lowlevel.checkpoint()
+                        add_resource(TA("published"))
+
+            class Root(Component):
+                def __init__(self) -> None:
+                    if case["published"] == "before":
+                        self.add_component("provider", Provider)
+                        self.add_component("consumer", Consumer)
+                    else:
+                        self.add_component("consumer", Consumer)
+                        self.add_component("provider", Provider)
+
+            try:
+                async with Context():
+                    await start_component(Root, {}, timeout=5)
+            except BaseException as e:  # noqa: BLE001
+                return ("start-failed", type(e).__name__, box.get("r"))
+            return box.get("r", ("no-result",))
+
+        exp = await run("explicit")
+        got = await run("injected")
+        if exp != got:
+            fails.append(("component-context", f"inside Component.start() (resource published {case['published']}): the explicit lookup gives {exp!r}, "
+                                               f"the injected call gives {got!r}"))
+        return fails
+
     async def one_case(self, env: Any, case: dict, res: dict) -> list:
         import warnings
 
@@ -450,7 +539,7 @@ class C19:
         try:
             with warnings.catch_warnings():
                 warnings.simplefilter("ignore")
-                exec(compile(src, "<c19>", "exec"), ns)
+                exec(compile(src, "<c19>", "exec", dont_inherit=True), ns)
         except BaseException as e:  # noqa: BLE001
             return [("decoration", f"decorating a valid function raised {e!r}\n{src}")]
         f = ns["f"]
